@@ -553,7 +553,7 @@ func Main(prop string) {
 
 func run(c *enum.Ctx, prop string) {
 	if prop == "C08" {
-		c.Rule("alphabet '-ac' (gap first): every ordered pair of non-empty sequences of length <=3 over {a,c}; every 3x3 matrix with substitution entries in {-1,0,1} and the four gap entries in {0,-1}; gap-open in {0,-1,-2}; the six aligners; a third of the matrices reach the aligner in a matrix value that earlier alignments used with other contents (rewritten in place), a fifth embedded in a matrix two rows/columns larger than the alphabet (extra cells 55), a fifth as a copy-on-write edit of a block-allocated matrix (outer rows views of one block, inner rows replaced), and one goroutine sweeps every 7th matrix through a single matrix value, all aligners applied again after each rewrite (thorough: lengths <=4, substitution entries in {-2..2} on a sliced sub-grid, gap entries {0,-1,-2}, and the alphabet '-acg' with lengths <=2); oracle: the score of the RETURNED PATH recomputed from the letters equals the optimum of an independent reference DP (global / local / whole-query-ending-at-the-same-reference-position; affine: three-state with and without gap-to-gap transitions so that the two defect classes are told apart); non-trivial = cases whose optimal alignment contains at least one gap or mismatch")
+		c.Rule("alphabet '-ac' (gap first): every ordered pair of non-empty sequences of length <=3 over {a,c}; every 3x3 matrix with substitution entries in {-1,0,1} and the four gap entries in {0,-1}; gap-open in {0,-1,-2}; the six aligners; a third of the matrices reach the aligner in a matrix value that earlier alignments used with other contents (rewritten in place), a fifth embedded in a matrix two rows/columns larger than the alphabet (extra cells 55), a fifth as a copy-on-write edit of a block-allocated matrix (outer rows views of one block, inner rows replaced), and one goroutine sweeps every 7th matrix through a single matrix value, all aligners applied again after each rewrite (thorough: lengths <=4, substitution entries in {-2..2} on a sliced sub-grid, gap entries {0,-1,-2}, and the alphabet '-acg' with lengths <=2; lengths 5 on every 40th matrix of the small grid); alphabets '-acgtn' (thorough also gap + 20 letters) with two asymmetric all-different matrices and every pair of sequences of length <=2; every word pair on a few matrices directly after a REJECTED call (illegal letter at each position of either sequence, ragged matrix sharing the rows of the good one, mixed sequence types, distinct alphabet objects) on the same goroutine; oracle: the score of the RETURNED PATH recomputed from the letters equals the optimum of an independent reference DP (global / local / whole-query-ending-at-the-same-reference-position; affine: three-state with and without gap-to-gap transitions so that the two defect classes are told apart); non-trivial = cases whose optimal alignment contains at least one gap or mismatch")
 	} else {
 		c.Rule("every alignment produced in C08's space: monotone abutting path of equal-length blocks, one-sided gaps and empty zero-score pairs; global spans both sequences, local/fitted within bounds; per maximal run the reported scores equal the score recomputed from letters, matrix and gap parameters (gap-open once per run); plain and quality letters give identical pairs; align.Format gives two equal-length rows that reduce to the aligned sub-sequences; plus ill-typed calls (an illegal letter at every position of either sequence, distinct alphabet objects, mixed Letters/QLetters, nil alphabet, alphabet without leading gap, ragged / non-square / undersized / empty matrices) which must return an error and never panic; non-trivial = all")
 	}
@@ -732,6 +732,99 @@ func run(c *enum.Ctx, prop string) {
 			}
 		}
 	})
+	// a larger alphabet (gap + 5 letters; thorough: gap + 20, the size of a protein alphabet) with
+	// asymmetric matrices whose entries are all different, sequences of length <= 2: every letter pair
+	// reaches the aligner, so an index computed with the wrong stride or the operands exchanged shows
+	{
+		defs := []string{"-acgtn"}
+		if !c.Quick {
+			defs = append(defs, "-acdefghiklmnpqrstvwy")
+		}
+		for _, d := range defs {
+			n := len(d)
+			var ms [][][]int
+			for variant := 0; variant < 2; variant++ {
+				M := make([][]int, n)
+				for i := range M {
+					M[i] = make([]int, n)
+					for j := range M[i] {
+						switch {
+						case i == 0 && j == 0:
+						case i == 0 || j == 0:
+							M[i][j] = -1 - (i+2*j+variant)%3 // gap penalties differ by letter and by side
+						case i == j:
+							M[i][j] = 2 + (i+variant)%3
+						default:
+							M[i][j] = -((3*i + 5*j + variant) % 4) // not symmetric
+						}
+					}
+				}
+				ms = append(ms, M)
+			}
+			var ws []string
+			enum.Strings(d[1:], 1, 2, func(b []byte) { ws = append(ws, string(b)) })
+			type job struct {
+				M  [][]int
+				al string
+				r  string
+			}
+			var jobs []job
+			for _, M := range ms {
+				for _, al := range aligners {
+					for _, r := range ws {
+						jobs = append(jobs, job{M, al, r})
+					}
+				}
+			}
+			enum.Parallel(len(jobs), func(ji int) {
+				j := jobs[ji]
+				for _, q := range ws {
+					k := Case{Aligner: j.al, R: j.r, Q: q, Letters: d, M: j.M, Open: -2}
+					c.Doing(ji, k)
+					c.Eval()
+					report(c, prop, k, evaluate(k))
+				}
+			})
+		}
+	}
+	if !c.Quick {
+		// lengths up to 5 on a slice of the small grid
+		var words5 []string
+		enum.Strings("ac", 1, 5, func(b []byte) { words5 = append(words5, string(b)) })
+		var slice [][][]int
+		matrices(3, []int{-1, 0, 1}, []int{0, -1}, func(M [][]int) { slice = append(slice, M) })
+		type job struct {
+			M  [][]int
+			al string
+			op int
+		}
+		var jobs []job
+		for mi := 3; mi < len(slice); mi += 40 {
+			for _, al := range aligners {
+				ops := []int{0}
+				if affineOf(al) {
+					ops = opens
+				}
+				for _, op := range ops {
+					jobs = append(jobs, job{slice[mi], al, op})
+				}
+			}
+		}
+		enum.Parallel(len(jobs), func(ji int) {
+			j := jobs[ji]
+			for _, r := range words5 {
+				for _, q := range words5 {
+					if len(r) < 5 && len(q) < 5 {
+						continue // covered above
+					}
+					k := Case{Aligner: j.al, R: r, Q: q, Letters: def, M: j.M, Open: j.op}
+					c.Doing(ji, k)
+					c.Eval()
+					report(c, prop, k, evaluate(k))
+				}
+			}
+		})
+	}
 	if prop != "C09" {
 		return
 	}
